@@ -12,6 +12,7 @@ import MiVerif.Model.BitmapCExec
 import MiVerif.Gen.Arith
 import MiVerif.Gen.Loops
 import MiVerif.Lemmas.BitmapMask
+import MiVerif.Lemmas.C16Basic
 
 namespace C14
 open BitmapC
@@ -118,5 +119,25 @@ theorem generated_bitmap_index_roundtrip (field bit : Nat) (hb : bit < 64) (hf :
 example : Gen.mi_bitmap_mask_ 3 5 = 224 := by decide
 example : Gen.mi_bitmap_mask_ 3 5 &&& Gen.mi_bitmap_mask_ 2 8 = 0 := by decide
 example : Gen.mi_bitmap_mask_ 3 5 &&& Gen.mi_bitmap_mask_ 2 7 ≠ 0 := by decide
+
+/-- **the number of arena blocks claimed for a request, as regenerated** (`mi_block_count_of_size`, `mi_arena_block_size`): the claimed
+    blocks cover the requested size and waste less than one 32 MiB block — with `block_ranges_disjoint`, two successful claims are
+    disjoint address ranges each large enough for its request (every size up to 2^63) -/
+theorem generated_block_count_covers_the_request (size : Nat) (hs : size ≤ 2^63) :
+    size ≤ Gen.mi_arena_block_size (Gen.mi_block_count_of_size size)
+    ∧ Gen.mi_arena_block_size (Gen.mi_block_count_of_size size) < size + 33554432
+    ∧ (0 < size → 0 < Gen.mi_block_count_of_size size) := by
+  have e63 : (2:Nat)^63 = 9223372036854775808 := by decide
+  have e64 : (2:Nat)^64 = 18446744073709551616 := by decide
+  rw [e63] at hs
+  unfold Gen.mi_arena_block_size Gen.mi_block_count_of_size
+  rw [C16L.divide_up_eq size 33554432 (by decide) (by rw [e64]; omega)]
+  have h1 := Nat.div_add_mod (size + 33554432 - 1) 33554432
+  have h2 := Nat.mod_lt (size + 33554432 - 1) (by decide : 0 < 33554432)
+  rw [Nat.mod_eq_of_lt (by omega)]
+  refine ⟨by omega, by omega, fun h => ?_⟩
+  exact Nat.div_pos (by omega) (by decide)
+
+example : Gen.mi_block_count_of_size 73400320 = 3 ∧ Gen.mi_arena_block_size 3 = 100663296 := by decide
 
 end C14
